@@ -108,4 +108,100 @@ def specRun (d : Dict) : List Op → List (Option (Option (List Rat)))
   | [] => []
   | op :: ops => (specStep d op).2 :: specRun (specStep d op).1 ops
 
+/-! ### Additions of the deepening round: return value of `add`, storage order, value_dim > 1 -/
+
+/-- `unique_coords[:, ~is_mem]`: the distinct coordinates of the batch that are not stored yet,
+    in lexicographic order.  `add` appends exactly these to the storage. -/
+def freshCoords (s : Store) (keys : List Coord) : List Coord :=
+  (uniqueCoords keys).filter (fun u => (get1 s u).isNone)
+
+/-- the value an already stored pair `p` holds after `add … batch additive` -/
+def updated (additive : Bool) (batch : List (Coord × Rat)) (p : Coord × Rat) : Rat :=
+  if p.1 ∈ batch.map (·.1) then
+    (if additive then p.2 + combine additive batch p.1 else combine additive batch p.1)
+  else p.2
+
+/-! #### value_dim = k: `k` value rows over the same coordinates (what the driver executes) -/
+
+/-- one `Store` per value row; all rows hold the same coordinates in the same order -/
+abbrev StoreK := List Store
+/-- a batch for a `value_dim = k` array: every coordinate comes with its column of `k` values
+    (`values[:, j]` of the implementation) -/
+abbrev BatchK := List (Coord × List Rat)
+
+/-- the scalar batch seen by value row `r` -/
+def rowBatch (r : Nat) (B : BatchK) : List (Coord × Rat) := B.map (fun p => (p.1, p.2.getD r 0))
+
+/-- `add` on every value row (row index counted from `r`) -/
+def addRows (additive : Bool) (B : BatchK) : Nat → StoreK → StoreK
+  | _, [] => []
+  | r, s :: st => (add s (rowBatch r B) additive).1 :: addRows additive B (r + 1) st
+
+/-- `SparseNdArray.add` for `value_dim = k`, with the early return on an empty coordinate list.
+    The returned index vector is computed from the coordinates only (row 0 here). -/
+def addK (st : StoreK) (B : BatchK) (additive : Bool) : StoreK × List Nat :=
+  if B.isEmpty then (st, []) else
+  (addRows additive B 0 st,
+    match st with
+    | [] => []
+    | s :: _ => (add s (rowBatch 0 B) additive).2)
+
+/-- `SparseNdArray.get` for `value_dim = k`: the `k × n` array `_values[:, ind]`, row by row;
+    `none` (ValueError) as soon as one coordinate is missing. -/
+def getK (st : StoreK) (cs : List Coord) : Option (List (List Rat)) := st.mapM (fun s => get s cs)
+
+/-- Specification for `value_dim = k`: a dictionary whose values are lists of `k` rationals. -/
+abbrev DictK := Coord → Option (List Rat)
+
+def vadd (e v : List Rat) : List Rat := List.zipWith (· + ·) e v
+
+def DictK.ins (additive : Bool) (d : DictK) (p : Coord × List Rat) : DictK :=
+  fun c => if c = p.1 then
+      some (match d c with
+        | some e => if additive then vadd e p.2 else p.2
+        | none => p.2)
+    else d c
+
+def DictK.addBatch (additive : Bool) (d : DictK) (B : BatchK) : DictK :=
+  B.foldl (DictK.ins additive) d
+
+/-- the `k × n` array (list of rows) made from `n` columns of `k` values -/
+def rowsOf (k : Nat) (cols : List (List Rat)) : List (List Rat) :=
+  (List.range k).map (fun r => cols.map (fun col => col.getD r 0))
+
+/-- dictionary read, delivered in the implementation's layout (`k` rows of `n` values) -/
+def DictK.get (k : Nat) (d : DictK) (cs : List Coord) : Option (List (List Rat)) :=
+  (cs.mapM d).map (rowsOf k)
+
+/-- abstraction map for `k` rows: a coordinate is held iff every row holds it -/
+def absK (st : StoreK) : DictK := fun c => st.mapM (fun s => get1 s c)
+
+/-- representation invariant of the `k`-row store: every row has the same coordinate list -/
+def SameKeys (st : StoreK) : Prop := ∃ ks : List Coord, ∀ s ∈ st, s.map (·.1) = ks
+
+inductive OpK where
+  | add (B : BatchK) (additive : Bool)
+  | get (cs : List Coord)
+
+/-- every value column of every `add` has exactly `k` entries -/
+def OpK.WF (k : Nat) : OpK → Prop
+  | .add B _ => ∀ p ∈ B, p.2.length = k
+  | .get _ => True
+
+def stepK (st : StoreK) : OpK → StoreK × Option (Option (List (List Rat)))
+  | .add B a => ((addK st B a).1, none)
+  | .get cs => (st, some (getK st cs))
+
+def specStepK (k : Nat) (d : DictK) : OpK → DictK × Option (Option (List (List Rat)))
+  | .add B a => (DictK.addBatch a d B, none)
+  | .get cs => (d, some (DictK.get k d cs))
+
+def runK (st : StoreK) : List OpK → List (Option (Option (List (List Rat))))
+  | [] => []
+  | op :: ops => (stepK st op).2 :: runK (stepK st op).1 ops
+
+def specRunK (k : Nat) (d : DictK) : List OpK → List (Option (Option (List (List Rat))))
+  | [] => []
+  | op :: ops => (specStepK k d op).2 :: specRunK k (specStepK k d op).1 ops
+
 end PorepyVerif.C46
